@@ -58,10 +58,33 @@ func (c *ctlProxy) mutate(from *Endpoint, p []byte) []byte {
 		}
 		c.Inject++
 	}
+	// a control packet of an unknown kind that already carries the id of the NEXT
+	// stream, right after this side's last frame of a well-behaved rpc (nothing
+	// for the current stream follows it, so the id order stays legal): the
+	// receiver has to ignore it; the rpc in progress is not its business
+	if n > 0 && last.Done && last.Kind == kCloseSend && c.futureOK(last.Stream) && c.x.ch.Bool("net", 0.25) {
+		out = refAppendFrame(out, RFrame{Stream: last.Stream + 1, Msg: 0, Kind: uint8(8 + c.x.ch.Pick("net", 56)), Done: true, Ctl: true, Data: make([]byte, c.x.ch.Pick("net", 6))})
+		c.Inject++
+		c.x.res.probe("unknown_control_packet_for_future_stream")
+	}
 	return out
 }
 
+// futureOK: the rpc using stream sid is well behaved (no cancel, no early close,
+// no error), so the half-close is the last frame its client writes for it.
+func (c *ctlProxy) futureOK(sid uint64) bool {
+	for _, r := range c.x.recs {
+		if r.SID == sid && r.Created {
+			return r.Spec.Clean && !r.Spec.Cancel && !r.Spec.Misbehaved && r.Spec.Shape != ShUnary
+		}
+	}
+	return false
+}
+
 // ---- C18: released reader decodes what the current implementation emitted --------------
+
+// packet kinds v0.0.17 knows (kind 4 was "deprecated cancel": unknown to its stream layer)
+var oldKinds = map[uint8]bool{1: true, 2: true, 3: true, 5: true, 6: true, 7: true}
 
 func (x *e1) checkOldReader() {
 	for _, m := range []*WireMonitor{x.monC, x.monS} {
@@ -88,6 +111,11 @@ func (x *e1) checkOldReader() {
 		for _, p := range m.Packets {
 			if !p.Ctl {
 				want = append(want, p)
+				// the released stream layer treats every kind it does not know as a
+				// fatal protocol error unless the control bit tells its reader to skip it
+				if !oldKinds[p.Kind] {
+					x.viol("oldreader", fmt.Sprintf("a packet of kind %d, which the released version does not know, was emitted without the control bit", p.Kind), fmt.Sprintf("%s wire: %s", m.Name, p))
+				}
 			}
 		}
 		rd := oldwire.NewReader(bytes.NewReader(m.Raw))
@@ -139,6 +167,17 @@ type byzProxy struct {
 	x     *e1
 	Fired map[string]int
 	dead  map[*Endpoint]bool
+	flooded map[*Endpoint]int // sender endpoint -> bytes of one unfinished packet injected
+}
+
+// floodWeight: the endless packet needs a small reader maximum and a transport
+// that moves bytes in large pieces (otherwise the run exhausts its step budget).
+func (b *byzProxy) floodWeight() int {
+	c := b.x.prog.Cfg
+	if c.ReaderMax > 0 && c.ReaderMax <= 64<<10 && (c.NetCap < 0 || c.NetCap >= 4096) {
+		return 2
+	}
+	return 0
 }
 
 func (b *byzProxy) hit(kind string) {
@@ -169,7 +208,20 @@ func (b *byzProxy) mutate(from *Endpoint, p []byte) []byte {
 		cur = fr.Stream
 	}
 	q := append([]byte(nil), p...)
-	switch ch.Weighted("net", []int{3, 2, 3, 2, 1, 2, 1, 4}) {
+	switch ch.Weighted("net", []int{3, 2, 3, 2, 1, 2, 1, 4, b.floodWeight()}) {
+	case 8: // a packet that never finishes: far more than the maximum in non-final frames of one id
+		chunk := make([]byte, 16<<10)
+		total := 0
+		for total <= 6*b.x.prog.Cfg.ReaderMax {
+			q = append(q, refAppendFrame(nil, RFrame{Stream: cur + 1, Msg: 1 << 41, Kind: kMessage, Data: chunk})...)
+			total += len(chunk)
+		}
+		b.hit("endless-packet")
+		b.dead[from] = true
+		if b.flooded == nil {
+			b.flooded = map[*Endpoint]int{}
+		}
+		b.flooded[from] = total
 	case 7: // damage a genuine invoke-metadata packet in flight: truncate its payload or flip a byte of it
 		var out []byte
 		rest, hit := p, false
